@@ -753,6 +753,9 @@ func (e *event) expandXattrMacros(xattrKey string, xattr any, mutateOpts *sgbuck
 		if path[0] != xattrKey {
 			continue
 		}
+		if len(path) < 2 {
+			return fmt.Errorf("macro expansion path %q does not address a property inside the xattr", v.Path)
+		}
 		expandedValue, err := e.macroExpand(v.Type)
 		if err != nil {
 			return err
